@@ -662,16 +662,42 @@ def one_responder_at_a_time(ctx):
     for name in ('shutdown', 'restart'):
         f = m.method('frappy.server.Server', name, inherited=False)
         ctx.analysed(f)
-        closes_ifaces = any(call_attr(c) == 'shutdown' and isinstance(a, ast.For) and 'self.interfaces' in src(a.iter)
-                            for c in calls_in(f.node) for a in ancestors(c))
-        if not closes_ifaces:
+        cfg = CFG(f.node, m, f.module)
+        loops = [a for a in body_walk(f.node) if isinstance(a, ast.For) and 'self.interfaces' in src(a.iter) and any(call_attr(c) == 'shutdown' for c in calls_in(a))]
+        # ... or a loop over a generator method of the server that yields everything that listens (`for l in self._listeners(): l.shutdown()`)
+        gens = []
+        for a in body_walk(f.node):
+            if isinstance(a, ast.For) and isinstance(a.iter, ast.Call) and isinstance(a.iter.func, ast.Attribute) and dotted(a.iter.func.value) == 'self' \
+                    and f.cls is not None and a.iter.func.attr in f.cls.methods and any(call_attr(c) == 'shutdown' for c in calls_in(a)):
+                g = f.cls.methods[a.iter.func.attr]
+                ylds = [y for y in body_walk(g.node) if isinstance(y, (ast.Yield, ast.YieldFrom))]
+                if any('self.interfaces' in src(y) for y in ylds):
+                    gens.append((a, g, ylds))
+        if not loops and not gens:
             continue
         n += 1
         disc = [c for c in calls_in(f.node) if call_attr(c) == 'shutdown' and 'discovery' in src(c.func)]
-        ctx.check(bool(disc), f'{f.qualname}:discovery responder shut down with the interfaces', f.node,
+        gdisc = [(g, y) for a, g, ylds in gens for y in ylds if 'self.discovery' in src(y)]
+        ctx.check(bool(disc) or bool(gdisc), f'{f.qualname}:discovery responder shut down with the interfaces', f.node,
                   'self.discovery.shutdown() next to the shutdown of the interfaces',
                   f'{name}() closes the interfaces but leaves the discovery responder running: after a restart two responders answer each '
                   'request, the old one announcing ports that are no longer listened on', f)
+        # the responder is silenced BEFORE the first interface is closed: while it runs it announces the ports of all interfaces, and
+        # an interface whose shutdown() raises must not keep it alive
+        first = True
+        if disc and loops:
+            dids = {i for c in disc for i in cfg.node_of(c)}
+            first = not any(dids & set(cfg.reach(cfg.ids(l))) for l in loops)
+        elif gdisc:
+            for a, g, ylds in gens:
+                gcfg = CFG(g.node, m, g.module)
+                dy = {i for g2, y in gdisc if g2 is g for i in gcfg.node_of(y)}
+                iy = [i for y in ylds if 'self.interfaces' in src(y) for i in gcfg.node_of(y)]
+                first = first and not any(dy & set(gcfg.reach([i])) for i in iy)
+        if disc or gdisc:
+            ctx.check(first, f'{f.qualname}:discovery responder shut down before the interfaces', f.node, 'the responder is silenced first',
+                      f'{name}() closes the interfaces before it shuts the discovery responder down: meanwhile the responder announces ports that are already '
+                      'closed, and when the shutdown of one interface raises it is never silenced', f)
     if n < 2:
         raise AnchorMissing('Server.shutdown / Server.restart closing self.interfaces not found')
 
